@@ -2,6 +2,7 @@ package shapes
 
 import (
 	"fmt"
+	"math"
 	"reflect"
 	"strings"
 	"unsafe"
@@ -553,6 +554,24 @@ func init() {
 		Derive(c, "BiMapI", func() {
 			LensBy(c, "BiMapI[conv, I16, int](\"num\")", optics.BiMapI[conv, I16, int]("num"), func(p *conv, b int) { p.I = I16(b) }, func(p *conv) int { return int(p.I) }, []int{0, -3, 32000}, fillConv)
 			LensBy(c, "BiMapI[conv, I64, int32](\"W\")", optics.BiMapI[conv, I64, int32]("W"), func(p *conv, b int32) { p.W = I64(b) }, func(p *conv) int32 { return int32(p.W) }, []int32{0, -3, 1 << 30}, fillConv)
+		})
+		Derive(c, "BiMapI over the whole range of int64", func() {
+			LensBy(c, "BiMapI[conv, I64, int64](\"W\")", optics.BiMapI[conv, I64, int64]("W"), func(p *conv, b int64) { p.W = I64(b) }, func(p *conv) int64 { return int64(p.W) }, []int64{math.MaxInt64, 1<<53 + 1, math.MinInt64 + 1, 1_700_000_000_123_456_789}, fillConv)
+		})
+		Derive(c, "Join over a BiMap", func() {
+			// the inner optic of a Join is a converting lens, not a field lens: Put goes through the conversion and is written back
+			type wrap struct {
+				Pre int8
+				In  conv
+				Z   int16
+			}
+			fillWrap := func(p *wrap, k int) { p.Pre, p.Z = int8(k+1), int16(-k-1); fillConv(&p.In, k) }
+			j := optics.Join(optics.ForProduct1[wrap, conv]("In"), optics.BiMapS[conv, NameStr, string]("S"))
+			LensBy(c, "Join(In, BiMapS(S))", j, func(p *wrap, b string) { p.In.S = NameStr(b) }, func(p *wrap) string { return string(p.In.S) }, []string{"", "x", "a longer one"}, fillWrap)
+			ji := optics.Join(optics.ForProduct1[wrap, conv]("In"), optics.BiMapI[conv, I16, int]("num"))
+			LensBy(c, "Join(In, BiMapI(num))", ji, func(p *wrap, b int) { p.In.I = I16(b) }, func(p *wrap) int { return int(p.In.I) }, []int{0, -3, 32000}, fillWrap)
+			jb := optics.Join(optics.ForProduct1[wrap, conv]("In"), optics.BiMap(optics.ForProduct1[conv, I64]("W"), func(a I64) int { return int(a) + 273 }, func(b int) I64 { return I64(b - 273) }))
+			LensBy(c, "Join(In, BiMap(W, +273, -273))", jb, func(p *wrap, b int) { p.In.W = I64(b - 273) }, func(p *wrap) int { return int(p.In.W) + 273 }, []int{0, 273, 5}, fillWrap)
 		})
 		Derive(c, "BiMapF", func() {
 			LensBy(c, "BiMapF[conv, F32, float64](\"f\")", optics.BiMapF[conv, F32, float64]("f"), func(p *conv, b float64) { p.f = F32(b) }, func(p *conv) float64 { return float64(p.f) }, []float64{0, -1.5, 1024.25}, fillConv)
